@@ -16,13 +16,14 @@ VARIABLES l, meta, last, execd, ever
 \* ever     : source indices executed in any run
 vars == <<l, meta, last, execd, ever>>
 
-KeyOf == meta.keyOf
-N == Len(KeyOf)
-\* ordinal of source command i among the commands of its key
-Ord(i) == Cardinality({j \in 1..i : KeyOf[j] = KeyOf[i]})
-Total(k) == Cardinality({j \in 1..N : KeyOf[j] = k})
+\* keysOf[i] : the keys (1..nkeys) command i touches - one for RPUSH, several for a multi-key DEL
+KeysOf(i) == {meta.keysOf[i][j] : j \in 1..Len(meta.keysOf[i])}
+N == Len(meta.keysOf)
+\* ordinal of source command i among the commands that touch key k
+OrdK(i, k) == Cardinality({j \in 1..i : k \in KeysOf(j)})
+Total(k) == Cardinality({j \in 1..N : k \in KeysOf(j)})
 
-Init == /\ l = 1 /\ meta = [id |-> 0, keyOf |-> <<>>, nkeys |-> 0, txn |-> FALSE, mode |-> ""] /\ last = <<>> /\ execd = {} /\ ever = {}
+Init == /\ l = 1 /\ meta = [id |-> 0, keysOf |-> <<>>, nkeys |-> 0, txn |-> FALSE, mode |-> ""] /\ last = <<>> /\ execd = {} /\ ever = {}
 IsEvent(e) == l <= Len(Trace) /\ Trace[l].ev = e /\ l' = l + 1
 Report(bad) == IF bad = {} THEN TRUE ELSE PrintT(<<"VIOL", meta.id, l, bad>>)
 
@@ -32,13 +33,12 @@ Exec ==
   /\ IsEvent("Exec")
   /\ LET r == Trace[l] IN
      IF r.idx = 0 THEN Report({"C19_UnknownCommand"}) /\ UNCHANGED <<last, execd, ever>>
-     ELSE LET o == Ord(r.idx)
-              p == last[r.k] IN
-          \* source order with rewinds only: the next command of a key is the successor of the previous one,
-          \* or a restart from an earlier one; never a jump over a command that has not run in this pass
-          /\ Report((IF o > p + 1 THEN {"C19_PerKeyOrderBroken"} ELSE {})
+     ELSE \* source order with rewinds only, for every key the command touches: the next command of a key is the
+          \* successor of the previous one, or a restart from an earlier one; never a jump over a command that has
+          \* not run in this pass
+          /\ Report((IF \E k \in KeysOf(r.idx) : OrdK(r.idx, k) > last[k] + 1 THEN {"C19_PerKeyOrderBroken"} ELSE {})
                     \cup (IF meta.txn /\ r.idx \in execd THEN {"C19_TxnCommandExecutedTwice"} ELSE {}))
-          /\ last' = [last EXCEPT ![r.k] = o]
+          /\ last' = [k \in 1..meta.nkeys |-> IF k \in KeysOf(r.idx) THEN OrdK(r.idx, k) ELSE last[k]]
           /\ execd' = execd \cup {r.idx} /\ ever' = ever \cup {r.idx}
   /\ UNCHANGED meta
 
@@ -57,8 +57,10 @@ Return ==
   /\ IsEvent("Return")
   /\ LET r == Trace[l]
          complete == ever = 1..N IN
-     \* (order is judged at every Exec; here: nothing is missing when no error is reported)
-     Report(IF ~r.err /\ (r.stalled \/ ~complete) THEN {"C19_SilentLoss"} ELSE {})
+     \* nothing is missing when no error is reported, and every key ends on its last command (a command that
+     \* was retried after its successors ran is an inversion, not a rewind)
+     Report((IF ~r.err /\ (r.stalled \/ ~complete) THEN {"C19_SilentLoss"} ELSE {})
+            \cup (IF ~r.err /\ complete /\ \E k \in 1..meta.nkeys : last[k] # Total(k) THEN {"C19_PerKeyOrderBroken"} ELSE {}))
   /\ UNCHANGED <<meta, last, execd, ever>>
 
 Next == Reset \/ Exec \/ Mig \/ Return \/ Resume
